@@ -223,3 +223,101 @@ fn k_call_substring_offsets() {
     std::mem::forget(r);
     std::mem::forget(args);
 }
+
+// ---------------------------------------------------------------------------------------------
+// U-failed: report_all_failed_clauses_for_rules over a payload-free catalogue of record trees (C09)
+// ---------------------------------------------------------------------------------------------
+fn st_of(k: u8) -> Status {
+    match k {
+        0 => Status::PASS,
+        1 => Status::FAIL,
+        _ => Status::SKIP,
+    }
+}
+
+fn leaf_rec(rt: RecordType<'static>, children: Vec<EventRecord<'static>>) -> EventRecord<'static> {
+    EventRecord { context: String::new(), container: Some(rt), children }
+}
+
+/// child configurations of a rule record: 0 = no children; 1 = a failed clause block holding a failed dependent-rule
+/// check with custom message "m"; 2 = a successful value check
+fn rule_rec(name: &'static str, status: u8, cfg: u8) -> EventRecord<'static> {
+    let mut kids: Vec<EventRecord<'static>> = Vec::with_capacity(1);
+    if cfg == 1 {
+        let mut msg = String::with_capacity(1);
+        msg.push('m');
+        let dep = leaf_rec(
+            RecordType::ClauseValueCheck(ClauseCheck::DependentRule(MissingValueCheck {
+                rule: "other",
+                message: None,
+                custom_message: Some(msg),
+                status: Status::FAIL,
+            })),
+            Vec::new(),
+        );
+        let mut inner = Vec::with_capacity(1);
+        inner.push(dep);
+        kids.push(leaf_rec(
+            RecordType::GuardClauseBlockCheck(BlockCheck { at_least_one_matches: false, status: Status::FAIL, message: None }),
+            inner,
+        ));
+    } else if cfg == 2 {
+        kids.push(leaf_rec(RecordType::ClauseValueCheck(ClauseCheck::Success), Vec::new()));
+    }
+    leaf_rec(RecordType::RuleCheck(NamedStatus { name, status: st_of(status), message: None }), kids)
+}
+
+fn check_entry(e: &ClauseReport<'static>, name: &str, cfg: u8) {
+    match e {
+        ClauseReport::Rule(r) => {
+            kani::assert(r.name == name, "the entry carries the name of the failed rule");
+            if cfg == 1 {
+                kani::assert(r.checks.len() == 1, "the failed check of the rule is listed under it");
+                match &r.checks[0] {
+                    ClauseReport::Clause(GuardClauseReport::Unary(u)) => match &u.messages.custom_message {
+                        Some(m) => kani::assert(m.len() == 1 && m.as_bytes()[0] == b'm', "the check carries the clause's custom message"),
+                        None => kani::assert(false, "custom message kept"),
+                    },
+                    _ => kani::assert(false, "a dependent-rule failure is reported as a clause"),
+                }
+            } else {
+                kani::assert(r.checks.is_empty(), "no check is invented for a rule without a showable failing check");
+            }
+        }
+        _ => kani::assert(false, "top-level entries are rules"),
+    }
+}
+
+/// all pairs of rule records: status in PASS/FAIL/SKIP x child configuration
+#[cfg_attr(kani, kani::proof)]
+#[cfg_attr(kani, kani::unwind(4))]
+#[cfg_attr(kani, kani::stub(alloc::fmt::format, fmt_stub))]
+#[cfg_attr(verif_replay, test)]
+fn k_report_failed_rules() {
+    lib_only!();
+    let s0: u8 = kani::any();
+    let s1: u8 = kani::any();
+    kani::assume(s0 <= 2 && s1 <= 2);
+    let mut c0 = 0u8;
+    while c0 <= 2 {
+        let mut c1 = 0u8;
+        while c1 <= 2 {
+            let mut checks: Vec<EventRecord<'static>> = Vec::with_capacity(2);
+            checks.push(rule_rec("r0", s0, c0));
+            checks.push(rule_rec("r1", s1, c1));
+            let out = report_all_failed_clauses_for_rules(&checks);
+            let want = (s0 == 1) as usize + (s1 == 1) as usize;
+            kani::assert(out.len() == want, "one entry per FAIL rule, none for PASS / SKIP rules (whatever their children contain)");
+            if s0 == 1 {
+                check_entry(&out[0], "r0", c0);
+            }
+            if s1 == 1 {
+                check_entry(&out[want - 1], "r1", c1);
+            }
+            std::mem::forget(out);
+            std::mem::forget(checks);
+            c1 += 1;
+        }
+        c0 += 1;
+    }
+}
